@@ -682,7 +682,7 @@ func init() {
 		ID: "C08", Engine: "server",
 		Generate: genC08, Decode: decodeC08, Execute: execC08,
 		Config: func(any) simrt.Config {
-			return simrt.Config{MaxSteps: 200000, IdleProbe: 4 * time.Second, ClockJumpPM: 4}
+			return simrt.Config{MaxSteps: 60000, IdleProbe: 4 * time.Second, ClockJumpPM: 4}
 		},
 		Runs: clientRuns(150000, 8000000),
 		Floors: []Floor{
